@@ -3,6 +3,7 @@ package props
 import (
 	"fmt"
 	"image"
+	"image/color"
 	"math"
 	"math/bits"
 	"runtime"
@@ -21,7 +22,7 @@ type C19 struct{}
 func (e *C19) ID() string    { return "C19" }
 func (e *C19) Level() string { return "exploration" }
 func (e *C19) Rule() string {
-	return "section A (accepted images; each case under a GOMAXPROCS drawn from {1,2,3,4,5,6,7,12,16,24,31,33} - the number of CPUs is not an input of the hash): seeded 64x64 and 256x256 images of kind RGBA (opaque, and premultiplied with varying alpha and fully transparent blocks), NRGBA (opaque and with alpha, fully transparent blocks included), Gray, YCbCr 4:4:4, contents gradient/noise/constant/checker/single pixel/0-255 extremes/synthetic photo/repository photographs resized by the harness's box filter; each is hashed by the primary and the alternative function, twice, then again after the pixel pools were poisoned (NaN, 1e30, another image's values), and again as the same pixels at origins (1,1), (8,8), (-5,3) and as SubImage views with stride > width. Oracle: L = the luminance the library converts (exported Rgb2GrayFast / ImageToGray into harness buffers), itself checked against 0.299R+0.587G+0.114B of the pixel values for RGBA/NRGBA/Gray; c = low 8x8 / 16x16 block of an independent float64 2-D DCT-II of L in row-major frequency order; every c_i >= upper median + tau must have its bit (MSB first) set, every c_i <= lower median - tau must have it clear, set bits must form an upper set of c up to 2 tau; primary and alternative may differ only on bits with |c_i - median| <= 2(tau32+tau64+sum|L64-L32|); repeated, poisoned-pool and shifted-origin calls must return the identical hash. tau32 = data-dependent float32 kernel bound (2.5e-5*||L||_1 for 64; per-index weights of the 256-point kernel for 256), tau64 = 1e-9*||L||_1. Section B (rejection, exhaustive lattice): every (w,h) in [0,70]^2 except (64,64), every (w,h) in [250,260]^2 except (256,256), further sizes up to 512, and nil, for all four functions, image kinds cycled, also at non-zero origins and with poisoned pools: the call must return a non-nil error (no hash, no panic). Section C: Distance on random and edge hashes: d(a,a)=0, symmetry, popcount(a^b), triangle inequality. Non-trivial: an accepted image with non-constant luminance, or a rejected size; distinct = distinct (kind, content, size, variant) / (w,h,function)."
+	return "section A (accepted images; each case under a GOMAXPROCS drawn from {1,2,3,4,5,6,7,12,16,24,31,33} - the number of CPUs is not an input of the hash): seeded 64x64 and 256x256 images of kind RGBA (opaque, and premultiplied with varying alpha and fully transparent blocks), NRGBA (opaque and with alpha, fully transparent blocks included), an image type that is a struct value rather than a pointer, Gray, YCbCr 4:4:4, contents gradient/noise/constant/checker/single pixel/0-255 extremes/synthetic photo/repository photographs resized by the harness's box filter; each is hashed by the primary and the alternative function, twice, then again after the pixel pools were poisoned (NaN, 1e30, another image's values), and again as the same pixels at origins (1,1), (8,8), (-5,3) and as SubImage views with stride > width. Oracle: L = the luminance the library converts (exported Rgb2GrayFast / ImageToGray into harness buffers), itself checked against 0.299R+0.587G+0.114B of the pixel values for RGBA/NRGBA/Gray; c = low 8x8 / 16x16 block of an independent float64 2-D DCT-II of L in row-major frequency order; every c_i >= upper median + tau must have its bit (MSB first) set, every c_i <= lower median - tau must have it clear, set bits must form an upper set of c up to 2 tau; primary and alternative may differ only on bits with |c_i - median| <= 2(tau32+tau64+sum|L64-L32|); repeated, poisoned-pool and shifted-origin calls must return the identical hash. tau32 = data-dependent float32 kernel bound (2.5e-5*||L||_1 for 64; per-index weights of the 256-point kernel for 256), tau64 = 1e-9*||L||_1. Section B (rejection, exhaustive lattice): every (w,h) in [0,70]^2 except (64,64), every (w,h) in [250,260]^2 except (256,256), further sizes up to 512, and nil, for all four functions, image kinds cycled, also at non-zero origins and with poisoned pools: the call must return a non-nil error (no hash, no panic). Section C: Distance on random and edge hashes: d(a,a)=0, symmetry, popcount(a^b), triangle inequality. Non-trivial: an accepted image with non-constant luminance, or a rejected size; distinct = distinct (kind, content, size, variant) / (w,h,function)."
 }
 func (e *C19) Assumptions() []string {
 	return []string{
@@ -34,7 +35,7 @@ func (e *C19) MinNontrivial(tier string) int { return 100 }
 func (e *C19) Exhaustive(tier string) bool   { return false }
 
 var c19Contents = []string{"gradient", "noise", "constant", "checker", "pixel", "extreme", "photo", "asset", "asset"}
-var c19Kinds = []string{"rgba", "nrgba", "nrgba-alpha", "gray", "ycbcr444", "rgba-alpha"}
+var c19Kinds = []string{"rgba", "nrgba", "nrgba-alpha", "gray", "ycbcr444", "rgba-alpha", "rgba-value"}
 
 type c19plan struct{ imgs, lattice, big, extra, dist int }
 
@@ -180,6 +181,11 @@ func (e *C19) runImage(c *core.Ctx, idx int) {
 	}
 	cseed := r.U64()
 	build := func(ox, oy int, sub bool) image.Image {
+		if kind == "rgba-value" {
+			// an image.Image implemented by a struct value (not a pointer), as image.Rectangle or a
+			// by-value wrapper is: it reaches the hash functions through the generic path
+			return c19ValueImage{gen.MakeImage(core.NewRng(cseed), c19Spec("rgba", content, s, ox, oy, sub))}
+		}
 		return gen.MakeImage(core.NewRng(cseed), c19Spec(kind, content, s, ox, oy, sub))
 	}
 	what := fmt.Sprintf("%s/%s %dx%d", kind, content, s, s)
@@ -559,3 +565,10 @@ func (e *C19) distances(c *core.Ctx, r *core.Rng) {
 		c.Rec.SigHash(core.HashStr(fmt.Sprintf("dist/%d/%d", ab, want)))
 	}
 }
+
+// c19ValueImage is an image type whose dynamic type is a struct, with value-receiver methods.
+type c19ValueImage struct{ inner image.Image }
+
+func (v c19ValueImage) ColorModel() color.Model { return v.inner.ColorModel() }
+func (v c19ValueImage) Bounds() image.Rectangle { return v.inner.Bounds() }
+func (v c19ValueImage) At(x, y int) color.Color { return v.inner.At(x, y) }
